@@ -80,19 +80,25 @@ def build(m, index_pad=pad16):
     runtime += struct.pack("<I", m.get("radius_bits", 0x3F800000))
     runtime += struct.pack("<9H", len(meshes), len(attr_offs), len(submeshes), len(mat_offs), len(bone_offs), len(bone_tables),
                            len(shapes), len(shape_meshes), len(shape_values))
-    runtime += struct.pack("<BBHBB", lod_count, m.get("flags1", 0x02), 0, 0, m.get("flags2", 0))
+    tsm = m.get("terrain_shadow_meshes", [])         # opaque 20-byte records
+    tss = m.get("terrain_shadow_submeshes", [])      # opaque 12-byte records
+    runtime += struct.pack("<BBHBB", lod_count, m.get("flags1", 0x02), 0, len(tsm), m.get("flags2", 0))
     # opaque header values (clip distances as bit patterns, unknown words, material indices): carried, never interpreted
     oq = m.get("opaque") or {}
     hv = (list(oq.get("header", [])) + [0] * 11)[:11]
-    runtime += struct.pack("<IIHHBBBBHHH6x", hv[0], hv[1], hv[2], 0, hv[4] & 255, hv[5] & 255, hv[6] & 255, hv[7] & 255, hv[8], hv[9], hv[10])
+    runtime += struct.pack("<IIHHBBBBHHH6x", hv[0], hv[1], hv[2], len(tss), hv[4] & 255, hv[5] & 255, hv[6] & 255, hv[7] & 255, hv[8], hv[9], hv[10])
     lod_pos = len(runtime)
     runtime += b"\0" * 180
     mesh_pos = len(runtime)
     runtime += b"\0" * (36 * len(meshes))
     for o in attr_offs:
         runtime += struct.pack("<I", o)
+    for rec in tsm:
+        runtime += bytes(rec)[:20].ljust(20, b"\0")
     for (io, ic, mask, bs, bc) in submeshes:
         runtime += struct.pack("<IIIHH", io, ic, mask, bs, bc)
+    for rec in tss:
+        runtime += bytes(rec)[:12].ljust(12, b"\0")
     for o in mat_offs:
         runtime += struct.pack("<I", o)
     for o in bone_offs:
